@@ -25,6 +25,7 @@ from harness import lib_c02c14 as L
 from harness import lib_c02hist as HI
 from harness import lib_c02types as TY
 from harness import lib_c02adv as ADV
+from harness import lib_isolate as ISO
 
 # ------------------------------------------------------------------ (a) ScopeSpace op sequences
 
@@ -433,6 +434,9 @@ def classify(bad):
     import re
 
     kinds = [k for k, _ in bad]
+    for k in ("checker-aborted", "runtime-aborted"):
+        if k in kinds:
+            return k  # a native judge kills the process on the model build returned
     if "missing-function" in kinds:
         return "function-used-but-not-defined"
     walker = [d for k, d in bad if k == "walker"]
@@ -919,8 +923,14 @@ def run(ck: core.Check):
         for i, r in zip(died, again):
             results[i] = r
     ck.cov["process_aborted_in_onnxruntime_rejudged_without_it"] = len(died)
+    # (the native judges run in children of the worker: a worker that still dies was killed inside `spox.build`
+    #  itself or stalled - neither a returned valid model nor an exception)
+    for i in died:
+        if results[i].get("died"):
+            ck.failure("process-aborted", f"the process handling generated case {list(tasks[i])} died or stalled "
+                                          "(native crash inside build?)", {"task": list(tasks[i])})
     # hand-written adversarial seeds always run (in-process)
-    for hs in HAND_SPECS:
+    def hand(hs):
         st, m = L.build_spec(hs)
         r = {"spec": hs, "status": st, "stats": L.spec_stats(hs)}
         if st == "ok":
@@ -930,7 +940,15 @@ def run(ck: core.Check):
             r["walker"] = L.walk_named(L.proto_to_named(m.graph))
         else:
             r["err"] = m
-        results.append(r)
+        return r
+
+    for hs in HAND_SPECS:  # (in a child process too: `build` itself calls native code)
+        try:
+            results.append(ISO.call(hand, hs, timeout=300))
+        except ISO.Aborted as e:
+            ck.failure("process-aborted", f"building / judging a hand-written program kills the process: {e}", {"spec": hs})
+        except Exception as e:  # noqa: BLE001
+            results.append({"crash": f"hand spec: {e}", "status": "crash", "spec": None})
 
     crashes = [r for r in results if r.get("crash")]
     if crashes:
@@ -977,12 +995,16 @@ def run(ck: core.Check):
             st, m = L.build_spec(s)
             return st == "ok" and classify(L.judge_model(m, custom_keys=custom_keys(s), want_ort=not r.get("ort_skipped"))) == key
 
-        try:  # shrink the witness (only on the failure path; a crash of a third-party judge ends the shrink)
+        def shrunk(spec=spec, key=key, same_failure=same_failure):
             small = L.shrink(spec, same_failure, budget=120)
             st, m = L.build_spec(small)
             bad2 = L.judge_model(m, custom_keys=custom_keys(small), want_ort=not r.get("ort_skipped")) if st == "ok" else []
-            if bad2 and classify(bad2) == key:
-                spec, bad = small, bad2
+            return (small, bad2) if bad2 and classify(bad2) == key else None
+
+        try:  # shrink the witness (failure path only; in a child process: a native crash ends the shrink, not the check)
+            got = ISO.call(shrunk, timeout=240)
+            if got:
+                spec, bad = got
         except Exception:  # noqa: BLE001
             pass
         ck.failure(key, f"build returned a model that fails: {bad[:3]}", {"spec": spec})
@@ -1081,7 +1103,29 @@ def run(ck: core.Check):
 
 
 def replay(ck: core.Check, doc) -> bool:
+    """True = still fails. Runs in a child process: a native crash on the replayed input is a failure, not exit 2."""
+    try:
+        return bool(ISO.call(_replay, ck, doc, timeout=600))
+    except ISO.Aborted as e:
+        print(f"process-aborted: replaying this input kills the process ({e})")
+        return True
+
+
+def _replay(ck: core.Check, doc) -> bool:
+    import sys
+
+    try:
+        return _replay_inner(ck, doc)
+    finally:
+        sys.stdout.flush()
+
+
+def _replay_inner(ck: core.Check, doc) -> bool:
     case = doc.get("case") or {}
+    if case.get("task") is not None:
+        r = case_worker(tuple(case["task"]))
+        print("case re-generated from its task:", {k: r.get(k) for k in ("status", "err", "bad", "crash")})
+        return bool(r.get("bad") or r.get("crash"))
     if case.get("hist") is not None:
         failing = False
         for rec in HI.judge_history(case["hist"]):
